@@ -220,6 +220,9 @@ func (r *Raft) onTakeSnapshot(t takeSnapshot) {
 	}
 	r.snapTakenCh = make(chan snapTaken, 1)
 	go func(index uint64, config Config) { // tracked by r.snapTakenCh
+		if verif {
+			verifPoint("snap.begin", r.snaps.dir)
+		}
 		meta, err := doTakeSnapshot(r.fsm, index, config)
 		if trace {
 			println(r, "doTakeSnapshot err:", err)
@@ -242,6 +245,9 @@ func doTakeSnapshot(fsm *stateMachine, index uint64, config Config) (snapshotMet
 	}
 	resp := req.Result().(fsmSnapResp)
 	defer resp.state.Release()
+	if verif {
+		verifPoint("snap.fsmdone", fsm.snaps.dir)
+	}
 
 	// write snapshot to storage
 	sink, err := fsm.snaps.new(resp.index, resp.term, config)
@@ -298,6 +304,9 @@ func (r *Raft) onSnapshotTaken(t snapTaken) {
 			println(r, "nowCompact:", nowCompact, "canCompact:", canCompact)
 		}
 		if nowCompact > r.log.PrevIndex() {
+			if verif {
+				verifPoint("snaptaken.precompact", r.snaps.dir)
+			}
 			_ = r.compactLog(nowCompact)
 		}
 		if canCompact > nowCompact {
